@@ -1,5 +1,8 @@
 import OtelVerif.Model.C04
 import OtelVerif.Lemmas.C04Term
+import OtelVerif.Lemmas.C04Pinned
+import OtelVerif.Lemmas.C04Bound
+import OtelVerif.Lemmas.C04Done
 /-!
 # C04 — exporter batching conserves telemetry, keeps identity, respects size limits
 
@@ -73,6 +76,72 @@ theorem C04_conserve_metrics_pinned_full_fails : ¬ C04_conserve_metrics_pinned_
   revert hm
   decide
 
+/-! ### which conservation theorem is about the tree being checked
+
+`Gen.C04Shape.metricFragmentKeepsIdentity` is regenerated from metrics_batch.go on every run and selects the fragment
+construction in the model (`metricsOps keep`).  `MetricsConserved keep` is what conservation means for that construction:
+
+* `keep = true`  (repaired `extract*DataPoints`, commit 6f81c0a15, NOT in /repo): the full statement, `C04_conserve_metrics`;
+* `keep = false` (the code in /repo): `C04_conserve_metrics_partial` — every data point is conserved exactly once with its
+  resource, scope, both schema URLs and metric *type*, and its metric identity is either the source's or the anonymous
+  typed fragment's; the full statement is false for this construction (`C04_conserve_metrics_pinned_full_fails`, open
+  finding `C04/mergesplit/metric-identity-lost/anonymous-split-off-fragment`).
+
+`C04_conserve_metrics_checked_tree` is the instance at the regenerated flag: whichever tree is checked gets the theorem
+about ITS code. -/
+
+/-- conservation of data points for the fragment construction selected by `keep` -/
+def MetricsConserved (keep : Bool) (src out : List MCtx) : Prop :=
+  if keep then out.Perm src
+  else (out.map anon).Perm (src.map anon) ∧ ∀ c ∈ out, c ∈ src ∨ ∃ c' ∈ src, c = anon c'
+
+/-- the code in /repo (`keep = false`): conserved exactly once with resource, scope, both schema URLs and metric type;
+metric identity = the source's or the anonymous typed fragment's -/
+theorem C04_conserve_metrics_partial (sz : Sizer) (max : Int) (r1 : Req (List MRes)) (r2 : Option (Req (List MRes)))
+    (out : List (Req (List MRes))) (h : mergeSplit (metricsOps false sz) max r1 r2 = some out) :
+    ((flatReqs mflatten out).map anon).Perm ((mflatten r1.p ++ optFlat mflatten r2).map anon) ∧
+    ∀ c ∈ flatReqs mflatten out, c ∈ mflatten r1.p ++ optFlat mflatten r2 ∨
+      ∃ c' ∈ mflatten r1.p ++ optFlat mflatten r2, c = anon c' := by
+  constructor
+  · have := mergeSplit_perm _ _ (metrics_wconserves false sz) max r1 r2 out h
+    have e1 : flatReqs wflatten out = (flatReqs mflatten out).map anon := by
+      simp [flatReqs, wflatten, List.map_flatMap]
+    have e2 : wflatten r1.p ++ optFlat wflatten r2 = (mflatten r1.p ++ optFlat mflatten r2).map anon := by
+      cases r2 <;> simp [optFlat, wflatten]
+    rw [e1, e2] at this
+    exact this
+  · intro c hc
+    -- MergeSplit = merge (append) then either the request itself or the split loop
+    have key : ∀ (r : Req (List MRes)), (if max == 0 then some [r] else split (metricsOps false sz) max r) = some out →
+        Allowed (mflatten r.p) c := by
+      intro r hr
+      split at hr
+      · injection hr with hr
+        subst hr
+        exact Or.inl (by simpa [flatReqs_single] using hc)
+      · have := splitLoop_allowed false sz max _ r [] out hr c hc
+        simpa [flatReqs] using this
+    cases r2 with
+    | none => simpa [optFlat, Allowed] using key r1 h
+    | some r2 =>
+      have := key (mergeTo (metricsOps false sz) r1 r2) h
+      simpa [optFlat, Allowed, mergeTo, metricsOps, mflatten] using this
+
+/-- one theorem for both constructions -/
+theorem C04_conserve_metrics_flag (keep : Bool) (sz : Sizer) (max : Int) (r1 : Req (List MRes)) (r2 : Option (Req (List MRes)))
+    (out : List (Req (List MRes))) (h : mergeSplit (metricsOps keep sz) max r1 r2 = some out) :
+    MetricsConserved keep (mflatten r1.p ++ optFlat mflatten r2) (flatReqs mflatten out) := by
+  cases keep with
+  | true => exact C04_conserve_metrics sz max r1 r2 out h
+  | false => exact C04_conserve_metrics_partial sz max r1 r2 out h
+
+/-- the instance for the tree this run checks (the model the driver runs is `metricsOps C04Shape.metricFragmentKeepsIdentity`) -/
+theorem C04_conserve_metrics_checked_tree (sz : Sizer) (max : Int) (r1 : Req (List MRes)) (r2 : Option (Req (List MRes)))
+    (out : List (Req (List MRes)))
+    (h : mergeSplit (metricsOps C04Shape.metricFragmentKeepsIdentity sz) max r1 r2 = some out) :
+    MetricsConserved C04Shape.metricFragmentKeepsIdentity (mflatten r1.p ++ optFlat mflatten r2) (flatReqs mflatten out) :=
+  C04_conserve_metrics_flag _ sz max r1 r2 out h
+
 /-! ## termination -/
 
 /-- `split` (hence `MergeSplit`) ends for every request, limit and sizer: `nodes + 1` iterations always suffice -/
@@ -90,10 +159,214 @@ theorem C04_mergeSplit_total (sz : Sizer) (max : Int) (r1 : Req (List Res)) (r2 
   · rfl
   · exact C04_terminates sz max _
 
+/-! ## cachedSize and the size bound -/
+
+theorem mergeSplit_exact {P : Type} (o : Ops P) (hs : SizeExact o) (max : Int) (r1 : Req P) (r2 : Option (Req P))
+    (out : List (Req P)) (h : mergeSplit o max r1 r2 = some out) (h1 : r1.exact o) (h2 : ∀ r, r2 = some r → r.exact o) :
+    ∀ r ∈ out, r.exact o := by
+  have hm : (match r2 with | some r2 => mergeTo o r1 r2 | none => r1).exact o := by
+    cases r2 with
+    | none => exact h1
+    | some r2 =>
+      right
+      have e1 := norm_cached o r1 h1
+      have e2 := norm_cached o r2 (h2 r2 rfl)
+      simp only [Req.norm] at e1 e2
+      simp only [mergeTo, hs.append, e1, e2]
+  simp only [mergeSplit] at h
+  split at h
+  · injection h with h
+    subst h
+    intro r hr
+    simp only [List.mem_singleton] at hr
+    subst hr
+    cases r2 <;> exact hm
+  · cases r2 with
+    | none => exact splitLoop_exact o hs max _ _ [] out h hm (by simp)
+    | some r2 => exact splitLoop_exact o hs max _ _ [] out h hm (by simp)
+
+/-- **cachedSize** (logs, traces, profiles; items and bytes sizer): the memoised size of every request `MergeSplit`
+returns is unset (`-1`) or exactly the size of its payload — `removedSize` is exactly what the source lost, through every
+level's "delta between the delta sizes" arithmetic, for ANY `DeltaSize` function -/
+theorem C04_cached_size (sz : Sizer) (max : Int) (r1 : Req (List Res)) (r2 : Option (Req (List Res))) (out : List (Req (List Res)))
+    (h : mergeSplit (logsOps sz) max r1 r2 = some out) (h1 : r1.exact (logsOps sz)) (h2 : ∀ r, r2 = some r → r.exact (logsOps sz)) :
+    ∀ r ∈ out, r.cached = -1 ∨ r.cached = payloadSize sz r.p :=
+  mergeSplit_exact _ (logs_sizeExact sz) max r1 r2 out h h1 h2
+
+/-- the same for metrics with the items sizer, for either fragment construction.  With the bytes sizer the accounting of a
+metric cut in two is an upper bound only (checked by the `cached` oracle on every run, not a theorem). -/
+theorem C04_cached_size_metrics_items (keep : Bool) (max : Int) (r1 : Req (List MRes)) (r2 : Option (Req (List MRes)))
+    (out : List (Req (List MRes))) (h : mergeSplit (metricsOps keep ⟨false⟩) max r1 r2 = some out)
+    (h1 : r1.exact (metricsOps keep ⟨false⟩)) (h2 : ∀ r, r2 = some r → r.exact (metricsOps keep ⟨false⟩)) :
+    ∀ r ∈ out, r.cached = -1 ∨ r.cached = mpayloadSize ⟨false⟩ r.p :=
+  mergeSplit_exact _ (metrics_sizeExact keep) max r1 r2 out h h1 h2
+
+theorem mergeSplit_bound {P : Type} (o : Ops P) (heavy : P → Nat) (hs : SizeExact o) (hb : Bounded o heavy) (max : Int)
+    (hmax : 0 < max) (r1 : Req P) (r2 : Option (Req P)) (out : List (Req P)) (h : mergeSplit o max r1 r2 = some out)
+    (h1 : r1.exact o) (h2 : ∀ r, r2 = some r → r.exact o) : ∀ r ∈ out, r.within o heavy max := by
+  have hm : (match r2 with | some r2 => mergeTo o r1 r2 | none => r1).exact o := by
+    cases r2 with
+    | none => exact h1
+    | some r2 =>
+      right
+      have e1 := norm_cached o r1 h1
+      have e2 := norm_cached o r2 (h2 r2 rfl)
+      simp only [Req.norm] at e1 e2
+      simp only [mergeTo, hs.append, e1, e2]
+  have hne : (max == 0) = false := by
+    have : max ≠ 0 := by omega
+    simpa using this
+  simp only [mergeSplit, hne, Bool.false_eq_true, if_false] at h
+  cases r2 with
+  | none => exact splitLoop_bound o heavy hs hb max (by omega) _ _ [] out h hm (by simp)
+  | some r2 => exact splitLoop_bound o heavy hs hb max (by omega) _ _ [] out h hm (by simp)
+
+/-- **size bound, items sizer** (logs, traces, profiles): with `max_size > 0`, every request `MergeSplit` returns has at
+most `max_size` items (weight: 1 per log record / span, the number of samples per profile) unless it holds at most one
+item that weighs anything — the single indivisible item (a profile with more samples than `max_size`).
+The bytes-sizer bound (needs monotonicity of `DeltaSize`) is not a theorem: `bound` oracle on every output of every run. -/
+theorem C04_bound_items (max : Int) (hmax : 0 < max) (r1 : Req (List Res)) (r2 : Option (Req (List Res)))
+    (out : List (Req (List Res))) (h : mergeSplit (logsOps ⟨false⟩) max r1 r2 = some out)
+    (h1 : r1.exact (logsOps ⟨false⟩)) (h2 : ∀ r, r2 = some r → r.exact (logsOps ⟨false⟩)) :
+    ∀ r ∈ out, payloadSize ⟨false⟩ r.p ≤ max ∨ heavy r.p ≤ 1 :=
+  mergeSplit_bound _ heavy (logs_sizeExact _) logs_bounded max hmax r1 r2 out h h1 h2
+
+/-- non-vacuity: 2 + 5 + 1 samples, max 3: the 5-sample profile leaves alone (over max, one item), everything else fits -/
+example :
+    (mergeSplit (logsOps ⟨false⟩) 3 { p := [⟨⟨1, 0, 0⟩, [⟨⟨2, 0, 0, 0, 0⟩, [⟨10, 0, 2⟩, ⟨11, 0, 5⟩, ⟨12, 0, 1⟩]⟩]⟩] } none).map
+      (fun out => out.map (fun r => (payloadSize ⟨false⟩ r.p, heavy r.p))) = some [(2, 1), (5, 1), (1, 1)] := by decide
+
 /-- non-vacuity (the design-time witness of the non-terminating loop): one 500-byte record, then a small one,
 `max_size = 100` bytes: the oversized record leaves alone, the rest follows -/
 example :
     (mergeSplit (logsOps ⟨true⟩) 100 { p := [⟨⟨1, 0, 11⟩, [⟨⟨2, 0, 0, 0, 6⟩, [⟨10, 515, 1⟩, ⟨11, 15, 1⟩]⟩]⟩] } none).map
       (fun out => out.map (fun r => (flatten r.p).map (·.2.2.id))) = some [[10], [11]] := by decide
+
+
+/-! ## completion callbacks of the batcher, over ALL histories
+
+`brun c {} ls` runs any sequence of `consume` (a request arrives; distinct request ids), `flush` (timer or shutdown flushes the
+pending batch) and `finish fid outcome` (a flush goroutine ends, in any order, with any outcome) through the model of
+`defaultBatcher` (`Consume` both paths, `multiDone`, `refCountDone`). -/
+
+theorem sinv_init : SInv {} [] [] :=
+  ⟨⟨by intro i hi; simp [BState.dones, BState.curDones] at hi, by intro i hi; simp at hi,
+    by intro id; simp [BState.dones, BState.curDones, liveRefs, firedCount]⟩, by simp [FOK]⟩
+
+/-- **Done fires exactly once, only after every batch it was handed to has finished** — for every history:
+1. no callback fires twice; 2. only callbacks of consumed requests fire;
+3. once a request's callback has fired, no pending or in-flight batch holds a `Done` of that request any more (it fired
+   after the last of them finished);
+4. when nothing is pending and nothing is in flight (e.g. after `Shutdown` returned), every consumed request's callback
+   has fired — exactly once by 1. -/
+theorem C04_done_once (c : BCfg) (ls : List BLabel) (hnd : (consumedIds ls).Nodup) :
+    (∀ id, firedCount (brun c {} ls).2 id ≤ 1) ∧
+    (∀ id, id ∉ consumedIds ls → firedCount (brun c {} ls).2 id = 0) ∧
+    (∀ id, firedCount (brun c {} ls).2 id = 1 → ∀ d ∈ (brun c {} ls).1.dones, tgt (brun c {} ls).1.refs d ≠ some id) ∧
+    ((brun c {} ls).1.cur = none → (brun c {} ls).1.flights = [] → ∀ id ∈ consumedIds ls, firedCount (brun c {} ls).2 id = 1) := by
+  have h := (brun_inv c ls {} [] [] sinv_init hnd (by simp)).1
+  simp only [List.nil_append, List.append_nil] at h
+  refine ⟨?_, ?_, ?_, ?_⟩
+  · intro id
+    have := h.acct id
+    split at this <;> omega
+  · intro id hid
+    have := h.acct id
+    simp only [hid, if_false] at this
+    omega
+  · intro id hf d hd ht
+    have hacc := h.acct id
+    have hle : (brun c {} ls).1.dones.count (.base id) + liveRefs (brun c {} ls).1.refs id = 0 := by
+      split at hacc <;> omega
+    cases d with
+    | base id' =>
+      simp only [tgt, Option.some.injEq] at ht
+      subst ht
+      have : 0 < (brun c {} ls).1.dones.count (.base id') := List.count_pos_iff.mpr hd
+      omega
+    | ref i =>
+      have hi := h.wf i hd
+      have hget : (brun c {} ls).1.refs[i]? = some (brun c {} ls).1.refs[i] := List.getElem?_eq_getElem hi
+      simp only [tgt, hget, Option.map_some, Option.some.injEq] at ht
+      have hc := h.cnt i hi
+      have hpos : 0 < (brun c {} ls).1.dones.count (.ref i) := List.count_pos_iff.mpr hd
+      have hlive : 0 < liveRefs (brun c {} ls).1.refs id := by
+        apply List.countP_pos_iff.mpr
+        refine ⟨(brun c {} ls).1.refs[i], List.getElem_mem hi, ?_⟩
+        simp only [liveP, ht, beq_self_eq_true, Bool.true_and, decide_eq_true_eq]
+        omega
+      omega
+  · intro hcur hfl id hid
+    have hacc := h.acct id
+    have hd : (brun c {} ls).1.dones = [] := by simp [BState.dones, BState.curDones, hcur, hfl]
+    have hl : liveRefs (brun c {} ls).1.refs id = 0 := by
+      apply List.countP_eq_zero.mpr
+      intro r hr
+      obtain ⟨i, hi, rfl⟩ := List.getElem_of_mem hr
+      have := h.cnt i hi
+      rw [hd] at this
+      simp only [List.count_nil, Int.natCast_zero] at this
+      simp [liveP, this]
+    rw [hd] at hacc
+    simp only [List.count_nil, hl, hid, if_true] at hacc
+    omega
+
+/-- the ref-counted `Done` of a request split over `n+1` flushes, fed the outcomes of those flushes one by one -/
+def feedRef (refs : List RefCount) : List Err → List RefCount × List (Nat × Err)
+  | [] => (refs, [])
+  | e :: es =>
+    let x := onDone refs e (.ref 0)
+    let y := feedRef x.1 es
+    (y.1, x.2 ++ y.2)
+
+theorem feedRef_step (id n : Nat) (acc e : Err) (es : List Err) :
+    (feedRef [⟨id, ((n + 1 : Nat) : Int), acc⟩] (e :: es)).2 =
+      (if n = 0 then [(id, acc.or e)] else []) ++ (feedRef [⟨id, (n : Int), acc.or e⟩] es).2 := by
+  have hc : ((n + 1 : Nat) : Int) - 1 = (n : Int) := by omega
+  simp only [feedRef, onDone, List.getElem?_cons_zero, List.set_cons_zero, hc]
+  by_cases h : n = 0
+  · subst h; simp
+  · have : ((n : Int) == 0) = false := by
+      have : (n : Int) ≠ 0 := by omega
+      simpa using this
+    simp [h, this]
+
+theorem feedRef_spec (id : Nat) (es : List Err) (acc : Err) (hne : es ≠ []) :
+    (feedRef [⟨id, es.length, acc⟩] es).2 = [(id, es.foldl Err.or acc)] := by
+  induction es generalizing acc with
+  | nil => exact absurd rfl hne
+  | cons e es ih =>
+    rw [List.length_cons, feedRef_step]
+    by_cases h : es = []
+    · subst h; simp [feedRef]
+    · have hl : es.length ≠ 0 := fun x => h (List.eq_nil_of_length_eq_zero x)
+      simp only [hl, if_false, List.nil_append, List.foldl_cons]
+      exact ih (acc.or e) h
+
+/-- **the combined outcome keeps every part's error classification** (`multierr.Append`, not "first error only"): a request
+split over any number of flushes reports exactly once, after the last of them, the union of all their error classes — a
+part interrupted by shutdown stays visible next to a plain export failure, in any completion order -/
+theorem C04_done_combines_errors (id : Nat) (es : List Err) (hne : es ≠ []) :
+    (feedRef [⟨id, es.length, {}⟩] es).2 = [(id, es.foldl Err.or {})] ∧
+    ((es.foldl Err.or {}).shut = es.any (·.shut)) ∧ ((es.foldl Err.or {}).plain = es.any (·.plain)) := by
+  refine ⟨feedRef_spec id es {} hne, ?_, ?_⟩
+  · have : ∀ (l : List Err) (a : Err), (l.foldl Err.or a).shut = (a.shut || l.any (·.shut)) := by
+      intro l
+      induction l with
+      | nil => intro a; simp
+      | cons x xs ih => intro a; simp [List.foldl_cons, ih, Err.or, Bool.or_assoc]
+    simpa using this es {}
+  · have : ∀ (l : List Err) (a : Err), (l.foldl Err.or a).plain = (a.plain || l.any (·.plain)) := by
+      intro l
+      induction l with
+      | nil => intro a; simp
+      | cons x xs ih => intro a; simp [List.foldl_cons, ih, Err.or, Bool.or_assoc]
+    simpa using this es {}
+
+/-- non-vacuity: pending batch, a request split over three flushes (ref-count 3), completion in a scrambled order with one
+failure: callbacks fire once each, request 2 reports the failure after its last flush -/
+example :
+    (brun ⟨10, 12⟩ {} [.consume 1 [(1, 4)], .consume 2 [(2, 5), (2, 9), (2, 9)], .finish 1 {}, .finish 0 { plain := true },
+      .flush, .finish 2 {}]).2 = [(1, { plain := true }), (2, { plain := true })] := by decide
 
 end OtelVerif.C04
